@@ -1063,6 +1063,16 @@ class Interp:
         if fn in ("llvm.minnum.f32", "llvm.maxnum.f32", "fminf", "fmaxf", "llvm.minnum.f64", "llvm.maxnum.f64"):
             x, y = s.emit(a[0]), s.emit(a[1])
             return z3.If(x <= y, x, y) if "min" in fn else z3.If(x >= y, x, y)
+        if fn.startswith("llvm.ctlz.") or fn.startswith("llvm.cttz."):
+            bits = int(fn.rsplit(".i", 1)[1])
+            v = a[0] & ((1 << bits) - 1)
+            if v == 0:
+                return bits
+            return (bits - v.bit_length()) if "ctlz" in fn else ((v & -v).bit_length() - 1)
+        if fn.startswith(("llvm.smax.", "llvm.smin.", "llvm.umax.", "llvm.umin.")) and all(isinstance(x, int) for x in a[:2]):
+            return max(a[0], a[1]) if "max" in fn else min(a[0], a[1])
+        if fn.startswith("llvm.abs.") and isinstance(a[0], int):
+            return abs(a[0])
         if fn in ("malloc", "_Znwm", "_Znam"):
             p = s.alloc(a[0], "fresh")
             s.heap.append((fn, p.obj, a[0]))
